@@ -154,16 +154,18 @@ UNINIT_MODULES = ["Uninit.tla", "MC_Uninit.tla"]
 UNINIT_OPS = ["NewUninit", "Write", "ArcWrite", "AsMutSlice", "Clone", "Drop", "Shareable", "TryUnique", "AssumeInit"]
 
 
-def uninit(prop, tier, name, nslots, nblocks, maxlen, simulate=None, scale=1):
+def uninit(prop, tier, name, nslots, nblocks, maxlen, simulate=None, scale=1, harness_cfg="a"):
     cfg = "\n".join(["SPECIFICATION MCSpec", "CONSTANTS", "  NSlots = %d" % nslots, "  NBlocks = %d" % nblocks, "  MaxLen = %d" % maxlen,
                      "  KeepHist = TRUE", "  Ops = %s" % S.tla_set(UNINIT_OPS), "VIEW MCView", "INVARIANT Invariants",
                      "PROPERTY ActionsOK", "ACTION_CONSTRAINT Emit", "CHECK_DEADLOCK FALSE", ""])
-    return stage(S.graph_replay, prop, tier, name, "uninit", "MC_Uninit.tla", UNINIT_MODULES, cfg, nslots, simulate=simulate, scale=scale)
+    return stage(S.graph_replay, prop, tier, name, "uninit", "MC_Uninit.tla", UNINIT_MODULES, cfg, nslots, simulate=simulate, scale=scale, harness_cfg=harness_cfg)
 
 
 def c15(tier, seed):
     if tier == "quick":
         return [uninit("C15", tier, "uninit_q", 3, 2, 2), uninit("C15", tier, "uninit_walks_q", 5, 4, 4, simulate=(500, 40, seed)),
+                # the same graph against the crate built unoptimised with debug assertions on (the profile `cargo test` uses)
+                uninit("C15", tier, "uninit_dev_q", 3, 2, 2, harness_cfg="d"),
                 # the same behaviours with long slices: each slot of the specification is 9 (17) consecutive slots
                 uninit("C15", tier, "uninit_long_q", 2, 2, 2, scale=9), uninit("C15", tier, "uninit_long17_q", 2, 1, 2, scale=17),
                 # the deprecated Arc::write / as_mut_slice are uniqueness gates: their load is part of the extracted protocol
@@ -176,6 +178,7 @@ def c15(tier, seed):
                 thin("C15", tier, "thin_reclen_q", ["NewFat", "NewThin", "Clone", "Drop", "IntoThin", "FromThin", "ProtFromThin", "ProtIntoThin"], 3, 2, 1, 2),
             stage(LY.gates_stage, "C15", tier, "gates_q", gates=["deprecated"])] + swaps("C15", tier, seed, hows=("uninit",))
     return [uninit("C15", tier, "uninit_t", 3, 2, 3), uninit("C15", tier, "uninit_t4", 4, 2, 2),
+            uninit("C15", tier, "uninit_dev_t", 3, 2, 3, harness_cfg="d"),
             uninit("C15", tier, "uninit_walks_t", 5, 4, 5, simulate=(5000, 60, seed)),
             uninit("C15", tier, "uninit_long_t", 3, 2, 2, scale=9), uninit("C15", tier, "uninit_long17_t", 2, 2, 3, scale=17),
             uninit("C15", tier, "uninit_long64_t", 2, 1, 2, scale=64),
@@ -363,6 +366,8 @@ def c08(tier, seed):
                 mm("C08", tier, "mm_cow_q", [("c08_2x3", mops, 2, 3, 2, False), ("c08_3x2", mops, 3, 2, 1, False)]),
                 tr("C08", tier, "threads_q", seed), inj("C08", tier), lay("C08", tier, "layout_matrix_q"),
             stage(CT.ctor_stage, "C08", tier, "zst_q", ["zst"], True, only_cats=["verdict", "ncl", "drops", "leak", "panicked", "crash"]),
+            # make_mut's own unwinding paths (a panicking destructor of the old value, a panicking Clone): release cases
+            stage(CT.ctor_stage, "C08", tier, "release_q", ["release"], True, only_cats=["frees", "drops", "baddrop", "leak", "crash", "panicked", "verdict", "contents", "block"]),
             stage(LY.surface_stage, "C08", tier, "surface_q"),
             stage(LY.gates_stage, "C08", tier, "gates_q", gates=["make_mut", "make_unique"])] + swaps("C08", tier, seed, hows=("init",))
     return [sized("C08", tier, "sized_cow_t", ops, 4, 3, 1, hows=("new", "newB")),
@@ -372,6 +377,7 @@ def c08(tier, seed):
                                          ("c08_3x3", ["clone", "drop", "make_mut"], 3, 3, 1, False)]),
             tr("C08", tier, "threads_t", seed), inj("C08", tier), lay("C08", tier, "layout_matrix_t"),
             stage(CT.ctor_stage, "C08", tier, "zst_t", ["zst"], True, only_cats=["verdict", "ncl", "drops", "leak", "panicked", "crash"]),
+            stage(CT.ctor_stage, "C08", tier, "release_t", ["release"], True, only_cats=["frees", "drops", "baddrop", "leak", "crash", "panicked", "verdict", "contents", "block"]),
             stage(LY.surface_stage, "C08", tier, "surface_t"),
             stage(LY.gates_stage, "C08", tier, "gates_t", gates=["make_mut", "make_unique"])] + swaps("C08", tier, seed, hows=("init",))
 
